@@ -145,6 +145,33 @@ pub fn specs() -> Vec<PropSpec> {
             assumptions: COMMON_ASSUMPTIONS,
         },
         PropSpec {
+            id: "C08",
+            parts: &[("c08", 48, 640)],
+            level: "fault_enumeration",
+            tags: &["C08"],
+            rule: "Each evaluation is one (operation, reached state) pair \
+                on the disk back-end: a seeded prefix history of 4-12 \
+                operations, then one seeded target operation (any API \
+                operation of the C01 alphabet) together with the \
+                background work it triggers. A counting run records every \
+                key-value and file-system mutation of that unit (n); then \
+                for every cut point k <= n (all of them, or a seeded \
+                sample of 24 when n > 24) the directory snapshot is \
+                restored and the unit re-run twice: with a process crash \
+                before mutation k (unwind, all memory dropped, restart \
+                from the directory) and with mutation k failing with an \
+                I/O error. After each cut: every entity loads (also in a \
+                fresh store), version = audit records + 1, key state / \
+                object sets / reported ROA objects agree, the published \
+                tree has no invalid, missing or unlisted object; after the \
+                recovery procedure (pump, re-submit, refresh all, pump) \
+                the normalised observable state must equal that of the \
+                fault-free twin. distinct_nontrivial counts distinct \
+                (operation kind | mutation site class | fault variant) \
+                triples actually cut.",
+            assumptions: CUT_ASSUMPTIONS,
+        },
+        PropSpec {
             id: "C05",
             parts: &[("c05", 480, 6000)],
             level: "exploration",
@@ -182,6 +209,18 @@ pub const COMMON_ASSUMPTIONS: &[&str] = &[
      only",
 ];
 
+pub const CUT_ASSUMPTIONS: &[&str] = &[
+    "a crash is modelled as an unwind out of the fault hook followed by \
+     dropping every in-memory object and reopening the data directory: the \
+     observable outcome of kill -9; power-loss semantics (un-fsynced data \
+     lost) are out of scope, the disk back-end does not fsync at all",
+    "the (operation, state) pairs are sampled by seed; within a pair the \
+     cut points are enumerated exhaustively up to 24 and sampled beyond",
+    "rpki-rs decoding and validation are correct (trusted base of the \
+     relying-party walk)",
+    "RSA keys come from a committed pool; OpenSSL's DRBG is not seeded",
+];
+
 fn spec(id: &str) -> Option<PropSpec> {
     specs().into_iter().find(|s| s.id.eq_ignore_ascii_case(id))
 }
@@ -196,6 +235,9 @@ pub fn run_profile(
         return runs::run_history(
             seed, &profile, replay.map(|r| r.ops.clone())
         )
+    }
+    if let Some(profile) = crate::cuts::profile(name) {
+        return crate::cuts::run_pair(seed, &profile)
     }
     RunReport {
         seed,
@@ -275,7 +317,9 @@ fn matching_finding<'a>(
     findings.iter().find(|f| {
         f.status == "known"
             && f.property.eq_ignore_ascii_case(prop)
-            && f.rule == v.rule
+            && (f.rule == v.rule
+                || v.rule.strip_prefix(f.rule.as_str())
+                    .map(|rest| rest.starts_with('@')).unwrap_or(false))
             && (f.detail_contains.is_empty()
                 || v.detail.contains(&f.detail_contains))
     })
@@ -399,7 +443,12 @@ pub fn check(prop: &str, tier: &str) -> i32 {
         for (k, v) in &r.stats { *stats.entry(k.clone()).or_insert(0) += v; }
         for (k, v) in &r.fired { *fired.entry(k.clone()).or_insert(0) += v; }
         for (k, v) in &r.probes { *probes.entry(k.clone()).or_insert(0) += v; }
-        if r.nontrivial() {
+        if !r.extra_sites.is_empty() {
+            for site in &r.extra_sites {
+                distinct.insert(site.clone());
+            }
+        }
+        else if r.nontrivial() {
             distinct.insert(r.fingerprint.clone());
         }
         sim_secs += r.sim_secs;
